@@ -105,6 +105,10 @@ func c12Get(shape int, desc int) *c12Decl {
 	two := ty("Two", decl.TStrings, "", []string{"alpha, beta"}, []string{"alpha", "beta"}, []string{"beta", "alpha"}, []string{"alpha"})
 	two.Defaults = []string{"alpha", "beta"}
 	typed = append(typed, two)
+	// a default the program assigns to Option.Default (no default tag): a value equal to it may be left out, the empty string may not
+	pd := ty("PD", decl.TString, "", "", "pv", "x")
+	pd.DefaultsAPI = []string{"pv"}
+	typed = append(typed, pd)
 	hid := mk("Hid", "hid", "", decl.TString)
 	hid.Hidden = "yes"
 	noini := mk("NoIni", "noini", "", decl.TString)
@@ -168,6 +172,8 @@ func c12KeyAllowed(k string) bool {
 	return k != "" && !strings.Contains(k, ":") && strings.TrimSpace(k) == k
 }
 
+var c12ReadTwice bool // per leaf
+
 // roundTrip writes b1's values and reads them into a fresh parser; returns the second parser or an error description.
 func c12RoundTrip(cd *c12Decl, b1 *decl.Built, wopts flags.IniOptions) (b2 *decl.Built, text string, what string, detail interface{}) {
 	defer func() {
@@ -179,8 +185,15 @@ func c12RoundTrip(cd *c12Decl, b1 *decl.Built, wopts flags.IniOptions) (b2 *decl
 	flags.NewIniParser(b1.Parser).Write(&buf, wopts)
 	text = buf.String()
 	b2 = cd.d.BuildTags()
-	if err := flags.NewIniParser(b2.Parser).Parse(bytes.NewReader(buf.Bytes())); err != nil {
+	ip := flags.NewIniParser(b2.Parser)
+	if err := ip.Parse(bytes.NewReader(buf.Bytes())); err != nil {
 		return b2, text, "written-file-unreadable", fmt.Sprint(err)
+	}
+	if c12ReadTwice {
+		// the program reads the same file once more with the same IniParser (a reload): that changes nothing
+		if err := ip.Parse(bytes.NewReader(buf.Bytes())); err != nil {
+			return b2, text, "written-file-unreadable|second-read-with-the-same-IniParser", fmt.Sprint(err)
+		}
 	}
 	if _, err := b2.Parser.ParseArgs(nil); err != nil {
 		return b2, text, "defaults-after-read-fail", fmt.Sprint(err)
@@ -210,6 +223,10 @@ func init() {
 		}
 		if part == 1 && shape == 0 && desc == 0 && state == 0 {
 			c12AddedOptions(c, wopts) // runs beside the regular leaf of this cell
+		}
+		c12ReadTwice = (shape+desc+wo)%2 == 1
+		if c12ReadTwice {
+			c.Hit("file-read-twice")
 		}
 		cd := c12Get(shape, desc)
 		b1 := cd.d.BuildTags()
@@ -352,9 +369,9 @@ func init() {
 		Rule: "(A) every string of length <= 2 (quick) / <= 3 (thorough) over {space tab \" \\ a LF CR é 0xFF = : ; # [ ] NBSP ,} plus 4095/4096/4098/10200/65536/90000-byte strings, used as a string option, a slice element (alone / second), a map value, a map key (only keys the key:value syntax can express), a string with a default tag; " +
 			"(B) 32 typed fields (incl. a signed and an unsigned integer with base 0, a type whose Marshaler and Unmarshaler have pointer receivers, scalar and slice, a slice of string pointers with awkward elements, two optional-argument options holding empty strings, integer-keyed maps with base 16 / 36, a slice with two default tags, a named integer type with a String method but no marshalling of its own, and a slice of it) (ints in bases 2/10/16/36 at their limits, uints, float32/64 incl. max, denormal, +-Inf, -0, NaN, bool, []bool, Duration limits, *int, *string, Marshaler/Unmarshaler, []int, map[string]int, map[int]string, map[string]bool, []uint8 base 16) each with its interesting values, and all fields set at once; " +
 			"x 5 declaration shapes (flat, nested namespaced groups, command with group, sub-subcommand, command three levels deep with a group; with ini-name, hidden, no-ini and callback options) x description {none, one line, two lines} x all 8 IniOptions x writer state {fresh, option previously read quoted, previously read under its long name}; " +
-			"oracle: Write -> Parse into a fresh parser over the same declaration -> ParseArgs(nil): every written option equal (NaN-aware); distinct = distinct (usage, value class, options/state/shape, result)",
+			"(also a string whose default the program assigns to Option.Default, holding that default, the empty string or another value); in half of the cells the written file is read a second time with the same IniParser before the comparison; oracle: Write -> Parse into a fresh parser over the same declaration -> ParseArgs(nil): every written option equal (NaN-aware); distinct = distinct (usage, value class, options/state/shape, result)",
 		Assumptions:  []string{"values are stored into the option struct after an initial ParseArgs(nil), as a program does before saving its configuration", "map keys restricted exactly as the statement restricts them"},
-		RequiredHits: []string{"usage:string", "usage:map-key", "usage:map-value", "usage:slice-element", "usage:all-fields", "usage:typed:float32", "usage:typed:int8/base36", "writer-state"},
+		RequiredHits: []string{"usage:string", "usage:map-key", "usage:map-value", "usage:slice-element", "usage:all-fields", "usage:typed:float32", "usage:typed:int8/base36", "writer-state", "file-read-twice"},
 		Bound:        [2]string{"strings <= 2", "strings <= 3"},
 		BudgetS:      [2]int{170, 1500},
 	})
